@@ -421,6 +421,53 @@ def run_case(case, rec, mon=None):
                 mm = [{}, {"mmap_mode": "r"}, {}, {"mmap_mode": "r+"}, {"mmap_mode": "c"}][case["idx"] % 5] if path.endswith(".npy") else {}
                 if mm:
                     rec.count("statistics_loaded_through_a_memory_map_" + mm["mmap_mode"].replace("+", "plus"))
+                if case["idx"] % 2 == 0:
+                    # statistics as another program wrote them: a raw file of single-precision numbers.  "Exactly the statistics it was
+                    # given": the object works with those numbers as they are, like one given the same numbers in double precision
+                    raw = os.path.join(d, "s.bin")
+                    insts[0].save(raw)
+                    s32 = np.fromfile(raw, dtype=np.float64).astype(np.float32)
+                    s32.tofile(os.path.join(d, "s32.bin"))
+                    np.save(os.path.join(d, "s32as64.npy"), s32.astype(np.float64).reshape(2, -1))
+                    try:
+                        L32 = P.Standardize(os.path.join(d, "s32.bin"), norm_var=norm_var, force_as="file")
+                        L64 = P.Standardize(os.path.join(d, "s32as64.npy"), norm_var=norm_var)
+                    except Exception:
+                        L32 = L64 = None
+                        rec.count("single_precision_raw_statistics_not_recognised")
+                    if L32 is not None:
+                        rec.count("single_precision_raw_statistics_loaded")
+                        more32 = np.array(data[rng.permutation(N)[: max(1, min(N, 40) // 2)]], dtype=np.float64)
+                        px = np.array(data[: min(N, 5)], dtype=np.float64) * 1.25 + 0.5
+                        for rnd in range(2):
+                            try:
+                                with monitor.quiet():
+                                    o32, o64 = L32.apply(np.array(px)), L64.apply(np.array(px))
+                            except ValueError as e:
+                                if rnd == 0 and "Expected feature vector" in str(e):
+                                    # a raw file does not say what its numbers are: these single-precision bytes also read as plausible
+                                    # double-precision statistics (of another dimension).  Inherent in the format, not judged
+                                    rec.count("single_precision_raw_statistics_read_as_double_precision_ones")
+                                else:
+                                    mon.v("apply on statistics loaded from a single-precision raw file raised %r" % (e,), check="raw_float32", op="apply")
+                                break
+                            except Exception as e:
+                                mon.v("apply on statistics loaded from a single-precision raw file raised %r" % (e,), check="raw_float32", op="apply")
+                                break
+                            rec.ev()
+                            if not np.all(np.isfinite(o64)):
+                                # (rounding the sums to single precision lost the variance of a coefficient: no transform to compare)
+                                rec.count("single_precision_statistics_without_a_finite_transform")
+                                break
+                            S = float(np.max(np.abs(o64))) if o64.size else 1.0
+                            if o32.shape != o64.shape or o32.dtype != o64.dtype or not np.all(np.abs(o32 - o64) <= 1e-11 * max(S, 1e-300)):
+                                mon.v("statistics loaded from a single-precision raw file do not give the transform of the same numbers loaded in double precision "
+                                      "(max |diff| %g, largest value %g%s)" % (float(np.max(np.abs(o32 - o64))) if o32.shape == o64.shape else -1, S, ", after further accumulation" if rnd else ""),
+                                      check="raw_float32", op="apply")
+                                break
+                            with monitor.quiet():  # (the shadow model knows nothing of what these two were loaded with: the pair is judged against each other)
+                                L32.accumulate(more32)
+                                L64.accumulate(more32)
                 loaded = P.Standardize(path, norm_var=norm_var, **mm)
                 mon.adopt(loaded, insts[0])
                 insts.append(loaded)
